@@ -23,7 +23,17 @@ var zzAbsent = []string{"reg.io/org/missing-x", "reg.io/org/missing-y"}
 //
 //gosym:harness
 //gosym:cover cycle acyclic implied-node self-loop diamond
-func HarnessC17Dag() {
+func HarnessC17Dag() { zzDag(dag.NewMapDag, false) }
+
+// HarnessC17UpgradingDag: the same graphs through the DAG the resolver uses
+// when dependency upgrades are enabled (all lock versions satisfy the
+// constraints, so no upgrade is implied): cycles are detected there too.
+//
+//gosym:harness
+//gosym:cover cycle acyclic implied-node self-loop diamond
+func HarnessC17UpgradingDag() { zzDag(dag.NewUpgradingMapDag, true) }
+
+func zzDag(newDag func() dag.DAG, upgrading bool) {
 	n := zz.Bound(3, 4)
 	targets := append(append([]string{}, zzSources[:n]...), zzAbsent...)
 	adj := make([][]bool, n) // edges among lock packages
@@ -74,7 +84,7 @@ func HarnessC17Dag() {
 		zz.Cover("diamond")
 	}
 
-	d := dag.NewMapDag()
+	d := newDag()
 	implied, err := d.Init(nodes)
 	zz.Assert("init-no-error", err == nil)
 	if err != nil {
